@@ -451,9 +451,7 @@ def gen_filter(rng, kind):
   ties = rng.random() < 0.25
   om = info.get("om", 0)
   vals = gen_matrix(rng, n, m, rng.choice([3, 8, 20]), None if ties else om)
-  fails = [rng.random() < rng.choice([0.0, 0.3, 0.6, 0.9]) for _ in range(n)]
-  if info["method"] == "eps" and all(fails):
-    fails[rng.randrange(n)] = False
+  fails = [rng.random() < rng.choice([0.0, 0.3, 0.6, 0.9, 1.0]) for _ in range(n)]     # every observation failed included (all modes)
   inp = dict(info=info, pts=[[float(rng.randint(0, 9)), float(i)] for i in range(n)], vals=vals, fails=fails,
              lie=[float(1000 + j) for j in range(m)])
   if kind == "filter_gp":
@@ -833,9 +831,12 @@ def oracle_filter(kind, inp, out):
         return _fail(kind, f"{meth} mode: '{k}' is not built from the right metric columns", inp, out, exp, text)
     return None
   om, cm, eps = info["om"], info["cm"], info["eps"]
-  thr = eps_threshold(vals, [not f for f in fails], cm, eps)
-  near = [abs(r[cm] - thr) <= 1e-9 * max(1.0, abs(thr)) for r in vals]
-  viol = [r[cm] >= thr for r in vals]
+  if all(fails):     # no successful observation: no frontier to place the threshold on, nothing is labelled by it
+    thr, near, viol = None, [False] * n, [False] * n
+  else:
+    thr = eps_threshold(vals, [not f for f in fails], cm, eps)
+    near = [abs(r[cm] - thr) <= 1e-9 * max(1.0, abs(thr)) for r in vals]
+    viol = [r[cm] >= thr for r in vals]
   base = viol if gp else [v or f for v, f in zip(viol, fails)]
   if gp:
     # recover which rows were kept: the points carry their row number in the last coordinate (generator) or are matched greedily
@@ -1056,10 +1057,8 @@ def widen(rng, kind, inp):
     m = 2 if info["method"] != "none" else rng.choice([1, 2])
     inp["vals"] = [[round(rng.gauss(0, 1), rng.choice([1, 6])) * scale for _ in range(m)] for _ in range(n)]
     inp["pts"] = [[rng.random(), float(i)] for i in range(n)]
-    inp["fails"] = [rng.random() < 0.4 for _ in range(n)]
+    inp["fails"] = [rng.random() < rng.choice([0.4, 0.4, 0.4, 1.0]) for _ in range(n)]
     if info["method"] == "eps":
-      if all(inp["fails"]):
-        inp["fails"][0] = False
       info["eps"] = 0.1 + 0.8 * rng.randint(0, 100) / 100
     if info["method"] == "convex":
       w = 0.1 + 0.8 * rng.random()
